@@ -254,7 +254,7 @@ def worker(job, acc):
         ti = job["params"]["text"]
         p, exc = do_parse(texts[ti])
         fp = exc if p is None else fp_project(p) + "/" + quietly(lambda: fp_reports(p))
-        acc.notes.append("FRESH " + common.dumps(dict(text=ti, hashseed=job.get("hashseed"), fp=fp, cli=fp_cli(texts[ti]))))
+        acc.notes.append("FRESH " + common.dumps(dict(text=ti, hashseed=job["params"].get("label") or job.get("hashseed"), fp=fp, cli=fp_cli(texts[ti]))))
         acc.count("fresh-runs")
         return
     # ---- history
@@ -325,6 +325,12 @@ def drive(prop, tier, seed, cfg):
     for hs in seeds:
         for ti in range(len(texts)):
             jobs.append(dict(base, widx=ti, hashseed=hs, params=dict(role="fresh", npool=npool, text=ti)))
+    # ... and under other process time zones (the project text fixes every clock it needs; seeded change C12-e let a
+    # naive datetime pick up the local zone of the process)
+    zones = ["Asia/Tokyo", "America/Los_Angeles", "Pacific/Kiritimati", "Europe/Berlin"]
+    for ti in range(len(texts)):
+        z = zones[ti % len(zones)]
+        jobs.append(dict(base, widx=ti, hashseed="0", env={"TZ": z}, params=dict(role="fresh", npool=npool, text=ti, label="0+TZ=" + z)))
     for h in range(tc["histories"]):
         jobs.append(dict(base, widx=h, hashseed=seeds[h % 3], ext=("pure" if h % 2 else "intree"),
                          params=dict(role="history", npool=npool, hist=h, maxlen=tc["maxlen"])))
@@ -356,13 +362,13 @@ def drive(prop, tier, seed, cfg):
         ref[ti] = d.get("0")
         C["fresh-comparisons"] += len(d)
         if len(vals) > 1:
-            add("fresh-result-depends-on-hash-seed", dict(text=ti, fps=d), dict(property="C12", clause="fresh-result-depends-on-hash-seed", text=texts[ti]))
+            add("fresh-result-depends-on-hash-seed-or-process-time-zone", dict(text=ti, fps=d), dict(property="C12", clause="fresh-result-depends-on-hash-seed-or-process-time-zone", text=texts[ti]))
     ref_cli = {}
     for ti, d in fresh_cli.items():
         ref_cli[ti] = d.get("0")
         C["fresh-cli-comparisons"] += len(d)
         if len(set(d.values())) > 1:
-            add("fresh-cli-result-depends-on-hash-seed", dict(text=ti, fps=d), dict(property="C12", clause="fresh-cli-result-depends-on-hash-seed", text=texts[ti]))
+            add("fresh-cli-result-depends-on-hash-seed-or-process-time-zone", dict(text=ti, fps=d), dict(property="C12", clause="fresh-cli-result-depends-on-hash-seed-or-process-time-zone", text=texts[ti]))
     # (2) every operation of every history equals the fresh result of that text
     for h in hists:
         prev = None
